@@ -327,6 +327,13 @@ def print_all(f, with_file=False):
             out[key] = ("ok", f.to_smtlib(daggify=dag))
         except Exception as e:          # noqa: BLE001 — any exception of the printer is an outcome
             out[key] = ("exc", type(e).__name__ + ": " + str(e)[:200])
+    # the public wrapper pysmt.shortcuts.to_smtlib (several environments live in one process)
+    import pysmt.shortcuts as shortcuts
+    for key, dag in (("sc_tree", False), ("sc_dag", True)):
+        try:
+            out[key] = ("ok", shortcuts.to_smtlib(f, daggify=dag))
+        except Exception as e:          # noqa: BLE001
+            out[key] = ("exc", type(e).__name__ + ": " + str(e)[:200])
     if not f.get_type().is_bool_type():
         return out                      # only formulas can be asserted
     from pysmt.exceptions import NoLogicAvailableError
@@ -406,6 +413,13 @@ def case_lines(enc, interps_enc, k, texts):
         st, txt = texts[p]
         if st == "ok":
             lines.append(("K:" + p, "cmp_print %s %s %s" % (p, enc, hx(txt))))
+            lines.append(("S:" + p, "chk_print %d %s %s %s" % (k, interps_enc, enc, hx(txt))))
+    for p, mode in (("sc_tree", "tree"), ("sc_dag", "dag")):
+        st, txt = texts.get(p, ("none", ""))
+        if st == "ok":
+            if txt == texts[mode][1]:
+                continue            # same text as FNode.to_smtlib: already judged above
+            lines.append(("K:" + p, "cmp_print %s %s %s" % (mode, enc, hx(txt))))
             lines.append(("S:" + p, "chk_print %d %s %s %s" % (k, interps_enc, enc, hx(txt))))
     for p, dag in (("script_tree", 0), ("script_dag", 1)):
         st, txt = texts.get(p, ("none", ""))
@@ -670,7 +684,7 @@ def gen_batch(ctx, n_env, per_env):
                 texts = print_all(f, with_file=(j % 25 == 0))
                 info = case_info(f, uni_info)
                 rd = semantic.readable(f)
-                for p in ("tree", "dag", "script_tree", "script_dag", "file"):
+                for p in ("tree", "dag", "sc_tree", "sc_dag", "script_tree", "script_dag", "file"):
                     if p in texts and texts[p][0] == "exc":
                         ctx.report_s({"oracle": "exception", "printer": p, "exc": texts[p][1].split(":")[0]},
                                      "%s printing raised %s" % (p, texts[p][1]),
@@ -691,6 +705,31 @@ def gen_batch(ctx, n_env, per_env):
                     ctx.count("has_odd_string")
                 if len(ctx.samples) < 5 and j % 17 == 3:
                     ctx.sample({"formula": rd, "tree": texts["tree"][1][:300], "dag": texts["dag"][1][:300]})
+            # raw array values with a repeated key (only `create_node` builds them; K only: the tree printer goes
+            # through dict(zip(keys, values)) and a stable sort, the DAG printer through the argument list)
+            for j in range(3):
+                m = uni.mgr
+                ks = [m.Int(rng.choice([1, 2, 10, -3])) for _ in range(rng.randint(2, 4))]
+                ks.append(ks[0])
+                rng.shuffle(ks)
+                vals = [m.Int(100 + i) for i in range(len(ks))]
+                raw_args = [m.Int(0)]
+                for kk, vv in zip(ks, vals):
+                    raw_args += [kk, vv]
+                f = m.create_node(node_type=op.ARRAY_VALUE, args=tuple(raw_args), payload=INT)
+                try:
+                    enc = wire.enc_term(f)
+                except wire.OutOfFragment:
+                    continue
+                info = {"unspeakable": False, "odd_sort_name": False, "odd_string": False, "known_ops": []}
+                for pname, dag in (("tree", False), ("dag", True)):
+                    try:
+                        txt = f.to_smtlib(daggify=dag)
+                    except Exception:       # noqa: BLE001
+                        continue
+                    lines.append("cmp_print %s %s %s" % (pname, enc, hx(txt)))
+                    meta.append(("K:" + pname, semantic.readable(f), info, {pname: ("ok", txt)}, enc, True, None))
+                ctx.count("raw_array_value_repeated_key")
             # multi-command scripts (one printer object for several assertions)
             fg.allow_known = False
             for j in range(max(6, per_env // 5)):
@@ -882,6 +921,22 @@ def replay(ctx, rep):
     r = rep["replay"]
     if r.get("cmds_wire"):
         return replay_multi(ctx, r)
+    if str(r.get("printer", "")).startswith("sc_"):
+        # the pysmt.shortcuts route in a process that has used another environment before: export decoy formulas
+        # with many node ids through the same public function first
+        import pysmt.shortcuts as shortcuts
+        env0 = Environment()
+        push_env(env0)
+        try:
+            m0 = env0.formula_manager
+            g = m0.Symbol("decoy", BOOL)
+            for i in range(300):
+                g = m0.Not(g) if i % 2 == 0 else m0.And(g, m0.Symbol("decoy%d" % i, BOOL))
+            for node in list(m0.formulae.values()):
+                shortcuts.to_smtlib(node, daggify=True)
+                shortcuts.to_smtlib(node, daggify=False)
+        finally:
+            pop_env()
     env = Environment()
     push_env(env)
     try:
